@@ -103,8 +103,13 @@ def ann_term(c, q):
 
 def case_term(c, out):
     ops, plan = compile_case(c)
-    if out is None or out.startswith("PANIC") or out.startswith("ABORT") or out == "HANG":
-        return None
+    if out is None or out.startswith("PANIC") or out.startswith("ABORT") or out.startswith("HANG"):
+        return None   # reported as a violation with the scenario as replay
+    stuck = out.endswith("| STUCK zero-delay-spin")
+    if stuck:
+        # the worker never left a zero-delay loop; the harness finished the scenario in stuck mode:
+        # judge the observations (oracle) and make the model comparison fail in any case (see below)
+        out = out[:-len("| STUCK zero-delay-spin")].rstrip()
     outs = [x.strip() for x in out.split(" | ")]
     if len(outs) != len(ops):
         return None
@@ -150,6 +155,8 @@ def case_term(c, out):
             if t[0] != "dp" or any(not (x[0] == "p" and x[1:].isdigit()) for x in t[1:]):
                 return None
             items.append("LObs %d %s" % (w[1], clist([x[1:] for x in t[1:]])))
+    if stuck:
+        items.append("LWake 0 (-1)")   # no model run has a negative bump count: always a model disagreement
     parts = clist(["(%d, %d, %d)" % (i, p[0], TAGS[p[1]]) for i, p in enumerate(c["parts"])])
     return "mkC17 %s %s" % (parts, clist(items))
 
@@ -168,8 +175,19 @@ def gen_case(r, tier):
         parts.append([dom, tag, r.choice(LEASES)])
     ann = r.choice([400, 1000, 1000, 5000])
     ev = [["net"], ["obs"]]
-    m = r.randint(6, 16 if tier == "quick" else 30)
     muted = set()
+    if n >= 3 and r.random() < 0.3:
+        # staggered silence: a long-lease participant goes silent first, a short-lease one is heard later and
+        # then goes silent too: the short lease must expire although an older-heard participant is still alive
+        a, b = r.sample(range(1, n), 2)
+        parts[0][:2] = parts[a][:2] = parts[b][:2] = [0, ""]
+        parts[a][2] = None
+        parts[b][2] = r.choice([700 * MS, S, 2 * S])
+        ann = r.choice([200, 400])
+        ev += [["mute", a, 1], ["jump", r.choice([300 * MS, 450 * MS, 600 * MS])], ["net"], ["obs"], ["mute", b, 1],
+               ["jump", parts[b][2] + r.choice([1, 50 * MS, S])], ["obs"]]
+        muted |= {a, b}
+    m = r.randint(6, 16 if tier == "quick" else 30) + len(ev)
     while len(ev) < m:
         k = r.random()
         if k < 0.30:
@@ -235,6 +253,11 @@ def corpus():
         # the periodic announcement refreshes last_communication: still there 2.5 s after discovery (lease 2 s), gone 2 s after the last one
         {"parts": [[0, "", None], [0, "", 2 * S]], "ann": 400,
          "ev": [["net"], ["obs"], ["jump", 1500 * MS], ["net"], ["obs"], ["jump", S], ["obs"], ["mute", 1, 1], ["jump", S + 1], ["obs"]]},
+        # different leases: A (100 s) heard at t0, B (1 s) heard at t0 + 0.3 s, both silent, 2 s later B must be gone and A present
+        # (the oldest-heard participant is not the one that expires)
+        {"parts": [[0, "", None], [0, "", None], [0, "", S]], "ann": 200,
+         "ev": [["net"], ["obs"], ["mute", 1, 1], ["jump", 300 * MS], ["net"], ["obs"], ["mute", 2, 1], ["jump", 2 * S], ["obs"],
+                ["jump", 50 * MS], ["obs"]]},
         # graceful departure
         {"parts": [[0, "", None], [0, "", None], [0, "", None]], "ann": 1000,
          "ev": [["net"], ["obs"], ["delP", 1], ["net"], ["obs"]]},
